@@ -65,6 +65,12 @@ def gen_sctp():
         m.raw("Definition rx_flag_%s (flags : Z) : bool := negb (Z.eqb (Z.land flags %d) 0)." % (name, v),
               "process_data_payload %s-bit mask" % name.upper(), SCTP)
     _need(r"if\s+unordered\s*\|\|\s*!dc\.ordered\s*\{", body, "process_data_payload: direct-delivery test")
+    # reassembly: clear on B, then append UNCONDITIONALLY, then emit on E -- nothing in between (the model has no
+    # size bound; a cap, a discard state or any other statement here must be modelled first)
+    _need(r"let\s+mut\s+buffer\s*=\s*dc\.reassembly_buffer\.lock\(\)\s*;\s*if\s+b_bit\s*\{\s*(?:if\s+!buffer\.is_empty\(\)\s*\{\s*debug!\([^;]*\)\s*;\s*\}\s*)?buffer\.clear\(\)\s*;\s*\}\s*"
+          r"buffer\.extend_from_slice\(&user_data\)\s*;\s*if\s+e_bit\s*\{\s*let\s+msg\s*=\s*std::mem::take\(&mut\s+\*buffer\)\.freeze\(\)\s*;",
+          body, "process_data_payload: reassembly is clear-on-B, unconditional append, emit-on-E")
+    m.raw("Definition REASSEMBLY_UNBOUNDED : bool := true.", "process_data_payload reassembly has no size bound", SCTP)
     _need(r"if\s+payload_proto\s*==\s*DATA_CHANNEL_PPID_DCEP\s*\{", body, "process_data_payload: DCEP test")
 
     # ---- send_data_raw: flags written, payload cap
